@@ -179,6 +179,17 @@ def spec(tier, seed):
               bounds="every %d-dimensional bound list (any i32 bounds)" % d,
               functions=["rusty_basic::interpreter::handlers::allocation::to_dimensions"])
 
+    # (probed: allocate_fixed_length_string(n) for n = 0..6 - `" ".repeat(n)` - no verdict in 600 s.)
+    b.add(al, "vk_c04_default_values", """
+        // elements and variables start as the zero of their type
+        match allocate_built_in(TypeQualifier::PercentInteger) { Variant::VInteger(0) => {}, other => { std::mem::forget(other); assert!(false); } }
+        match allocate_built_in(TypeQualifier::AmpersandLong) { Variant::VLong(0) => {}, other => { std::mem::forget(other); assert!(false); } }
+        match allocate_built_in(TypeQualifier::BangSingle) { Variant::VSingle(f) => assert!(f == 0.0), other => { std::mem::forget(other); assert!(false); } }
+        match allocate_built_in(TypeQualifier::HashDouble) { Variant::VDouble(f) => assert!(f == 0.0), other => { std::mem::forget(other); assert!(false); } }
+        match allocate_built_in(TypeQualifier::DollarString) { Variant::VString(s) => { assert!(s.is_empty()); std::mem::forget(s); }, other => { std::mem::forget(other); assert!(false); } }
+        """, unwind=2, exhaustive=True, cost=10, bounds="the five built-in types",
+          functions=["rusty_basic::interpreter::handlers::allocation::allocate_built_in"])
+
     # (probed: InstructionGenerator::generate_fix_string_length on one by-reference argument of symbolic STRING * n type -
     # CBMC resource failure after 140-200 s; Expression::expression_type clones the recursive ExpressionType enum.  Outside.)
 
